@@ -72,7 +72,7 @@ class Forest(WeightedGraph):
         else:
             if np.size(parents) != V:
                 raise ValueError('Incorrect size for parents')
-            if parents.max() > self.V:
+            if parents.max() > self.V - 1 or parents.min() < 0:
                 raise ValueError('Incorrect value for parents')
 
             self.parents = np.reshape(parents, self.V).astype(np.int_)
